@@ -24,7 +24,7 @@ EXHAUSTIVE_SUBDOMAINS = ["every NL band 1..59 x hemisphere x newer parity (direc
 ASSUMPTIONS = ["positions whose recovered latitude is within 1e-9 deg of an NL transition are counted as ambiguous, not judged",
                "equal timestamps accept either frame's position"]
 REQUIRED = ["none_result", "value_result", "same_parity", "south_wrap", "lon_wrap", "newer_even", "newer_odd",
-            "swapped_args", "datetime_ts"] + ["band%d_%s" % (nl, h) for nl in range(1, 60) for h in "NS"]
+            "swapped_args", "datetime_ts", "position_called_with_reference"] + ["band%d_%s" % (nl, h) for nl in range(1, 60) for h in "NS"]
 
 
 def in_window(*rl):
@@ -54,8 +54,14 @@ def m_global(ctx, case):
     else:
         T0, T1 = te, to
     fn = adsb.position if case["api"] == "position" else adsb.airborne_position
-    r_a = call(fn, m0, m1, T0, T1)
-    r_b = call(fn, m1, m0, T1, T0)
+    extra = ()
+    if case["api"] == "position" and case.get("ref"):
+        # position() takes an optional receiver location (the live viewer always passes it); it is needed for surface frames
+        # only and must not change the globally unambiguous decode of an airborne pair, wherever the receiver is
+        extra = tuple(case["ref"])
+        ctx.hit("position_called_with_reference")
+    r_a = call(fn, m0, m1, T0, T1, *extra)
+    r_b = call(fn, m1, m0, T1, T0, *extra)
     ctx.ev(2)
     ctx.hit("swapped_args")
     key_w = "cprNL-window-above-87" if in_window(rl0, rl1) else None
@@ -151,6 +157,8 @@ def mkcase(rng, lat, lon, dist_nm=None, order=None):
     return {"p0": [lat, lon], "p1": [lat1, lon1], "tc": tc, "ss": rng.randrange(4), "saf": rng.randrange(2),
             "alt": [rng.fill(12), rng.fill(12)], "tbit": rng.randrange(2), "df": rng.choice((17, 17, 18)),
             "ca": rng.randrange(8), "addr": rng.fill(24), "te": te, "to": to,
+            "ref": rng.choice((None, None, [lat + rng.uniform(-1, 1), lon + rng.uniform(-1, 1)],
+                               [rng.uniform(-90, 90), rng.uniform(-180, 180)], [rng.randint(-90, 90), rng.randint(-180, 179)])),
             "dt": rng.random() < 0.15, "api": rng.choice(("position", "airborne_position")),
             "lower": rng.choice((0, 0, 0, 0, 0, 0, 0, 1, 2, 3))}
 
